@@ -85,8 +85,8 @@ static void store(Ring &r, queue &q) { r.mem.assign((uint8_t *) q.base, (uint8_t
 struct Counters { uint64_t sstates, strans, rstates, rtrans, wires, nontrivial, wrapped, retries, cut_after_code, stalls_checked; };
 enum { S_PUSH1, S_PUSH2, S_PUSHR, S_END, S_FLUSH1, S_FLUSHA, S_GROW, S_N };
 static const char *sname[] = {"push1", "push2", "pushrest", "end", "flush1", "flushall", "grow"};
-enum { R_DEL1, R_DELCODE, R_DELDELIM, R_DELALL, R_RECV, R_GROW, R_N };
-static const char *rname[] = {"deliver1", "deliver-through-code-byte", "deliver-through-delimiter", "deliver-all", "recv", "grow"};
+enum { R_DEL1, R_DELCODE, R_DELDELIM, R_DELALL, R_RECV, R_GROW, R_PEEK, R_N };
+static const char *rname[] = {"deliver1", "deliver-through-code-byte", "deliver-through-delimiter", "deliver-all", "recv", "grow", "peek"};
 
 struct Ctxt { Run &r; Counters &c; int f; std::vector<Bytes> msgs; std::string sc; };
 
@@ -176,6 +176,7 @@ static bool receiver_step(Ctxt &cx, RState &s, int a, const Bytes &wire, const s
 		if (a == R_DELALL && false) return false;
 	} else if (a == R_RECV) { if (s.want_grow) return false; }
 	else if (a == R_GROW) { if (!s.want_grow) return false; }
+	else if (a == R_PEEK) { if (s.want_grow || s.msg >= 0 || !s.q.len) return false; }
 	decode_queue dq(decoders[cx.f]);
 	load(dq, s.q); dq._state._ctx = s.ctx; dq._state.curr = s.curr; dq._state.data.pos = s.pos; dq._state.data.len = s.dlen; dq._state.data.msg = s.msg;
 	cx.r.hint((cx.sc + "|receiver|" + rname[a]).c_str());
@@ -210,6 +211,23 @@ static bool receiver_step(Ctxt &cx, RState &s, int a, const Bytes &wire, const s
 			}
 		}
 		(void) before;
+	} else if (a == R_PEEK) {
+		// mpt_queue_peek: decode the first block of the message in progress, report the decoded part
+		const size_t room = 48;
+		uint8_t *dst = (uint8_t *) malloc(room); memset(dst, 0x5A, room);
+		ssize_t n = LIB(mpt_queue_peek(&dq, room, dst));
+		if (n > 0) {
+			if (s.got >= sent.size()) viol = fmt("peek reports %zd decoded bytes although every sent message was already received", n);
+			else if ((size_t) n > sent[s.got].size()) viol = fmt("peek reports %zd decoded bytes of a %zu byte message", n, sent[s.got].size());
+			else {
+				// the preview copy is not promised when the decoder cannot look at wrapped data; what IS written must be right
+				size_t k = (size_t) n < room ? (size_t) n : room, w = 0;
+				while (w < room && dst[w] != 0x5A) ++w;
+				if (w > k) viol = fmt("peek wrote %zu bytes but reports %zd", w, n);
+				else if (w && memcmp(dst, sent[s.got].data(), w)) viol = "peeked bytes {" + hex(dst, w) + "} are not a prefix of the message in transit {" + ref::hexs(sent[s.got]) + "}";
+			}
+		}
+		free(dst);
 	} else {
 		if (!LIB(mpt_queue_prepare(&dq, 8))) viol = "mpt_queue_prepare failed";
 		s.want_grow = false;
